@@ -691,6 +691,22 @@ fn family_convert() {
         }};
     }
     narrow!(i8); narrow!(i16); narrow!(i32); narrow!(i64); narrow!(u8); narrow!(u16); narrow!(u32); narrow!(u64);
+    // every non-integer scalar target: only its own kind converts; any other kind is UnexpectedValueType carrying the same value
+    macro_rules! wrong_kind {
+        ($t:ty, $pat:pat) => {{
+            for other in pool() {
+                rep.cases += 1;
+                let own = matches!(other, $pat);
+                match (<$t>::try_from(other.clone()), own) {
+                    (Ok(_), true) => {}
+                    (Err(reval::Error::UnexpectedValueType(v, _)), false) if same_value(&v, &other) => {}
+                    (r, _) => rep.fail(&["C17"], concat!("try_", stringify!($t), ".wrong_kind"), &format!("{}::try_from({other})", stringify!($t)), &format!("{:?}", r.map(|_| "Ok(..)")), if own { "Ok" } else { "Err(UnexpectedValueType(the same value, _))" }),
+                }
+            }
+        }};
+    }
+    wrong_kind!(bool, Value::Bool(_)); wrong_kind!(f64, Value::Float(_)); wrong_kind!(String, Value::String(_)); wrong_kind!(Decimal, Value::Decimal(_));
+    wrong_kind!(DateTime<Utc>, Value::DateTime(_)); wrong_kind!(TimeDelta, Value::Duration(_)); wrong_kind!(i128, Value::Int(_));
     // u128 needs care: as i128 of MAX wraps
     for b in [0i128, 1, -1, i128::MAX, i128::MIN] {
         rep.cases += 1;
